@@ -23,7 +23,10 @@ pub mod c20;
 
 pub fn run(ctx: &Ctx) -> bool {
     match ctx.id.as_str() {
-        "C01" => c01::run(ctx),
+        "C01" => {
+            c01::run(ctx);
+            c01::run_same_flow(ctx)
+        }
         "C02" => c02::run(ctx),
         "C03" => c03::run(ctx),
         "C04" => c04::run(ctx),
